@@ -139,6 +139,9 @@ func ksOp(keyIDs []string, kssSecret, kssRand *big.Int, hw []byte, context, nonc
 
 func genC14(g *Rng, tier string, emit func(Op)) {
 	ka, kb, kc := fixedKey("k1024a", true), fixedKey("k1024b", true), fixedKey("k2048", true)
+	for n := 1; n <= 3; n++ {
+		emit(legacyTwoDisclosuresOp(g, ka, n, n == 2))
+	}
 	// two keys of one issuer (counters 0 and 1): the protocol identifies keys by issuer AND counter
 	kd := rotatedKey(ka, kb, 1)
 	pool := []*KeyPair{ka, kb, kc, kd}
@@ -462,4 +465,75 @@ func ksLacksLabel(in []ksIn, known []string, honest string) string {
 		}
 	}
 	return honest
+}
+
+// legacyTwoDisclosuresOp: the legacy keyshare protocol (the server answers with its share of the
+// response and P) with n credentials of one keyshare server in one session: the one answer is
+// merged into every proof; the list verifies and the server's answer is what it was.
+func legacyTwoDisclosuresOp(g *Rng, kp *KeyPair, n int, issig bool) Op {
+	pk := kp.pk
+	res := func() (r string) {
+		defer func() {
+			if e := recover(); e != nil {
+				r = fmt.Sprintf("panic: %v", e)
+			}
+		}()
+		ctx, nonce := g.bits(256), g.bits(80)
+		userSecret := g.bits(int(pk.Params.Lm) - 2)
+		kssSecret, err := gabi.NewKeyshareSecret()
+		if err != nil {
+			return "failed: " + err.Error()
+		}
+		ksP := new(big.Int).Exp(pk.R[0], kssSecret, pk.N)
+		var builders gabi.ProofBuilderList
+		var keys []*gabikeys.PublicKey
+		var kss []string
+		for i := 0; i < n; i++ {
+			ms := []*big.Int{userSecret, g.bits(100), g.bits(50)}
+			sig, err := gabi.VerifSignMessageBlockAndCommitment(kp.sk, pk, ksP, ms)
+			if err != nil {
+				return "failed: " + err.Error()
+			}
+			sig.KeyshareP = ksP
+			cred := &gabi.Credential{Signature: sig, Pk: pk, Attributes: ms}
+			b, err := cred.CreateDisclosureProofBuilder([]int{1 + i%2}, nil, false)
+			if err != nil {
+				return "failed: " + err.Error()
+			}
+			builders = append(builders, b)
+			keys = append(keys, pk)
+			kss = append(kss, "kss")
+		}
+		kssRand, kssComm, err := gabi.NewKeyshareCommitments(kssSecret, keys)
+		if err != nil {
+			return "failed: " + err.Error()
+		}
+		for i, b := range builders {
+			b.SetProofPCommitment(kssComm[i])
+		}
+		rnd := map[string]*big.Int{"secretkey": g.bits(int(pk.Params.LmCommit) - 2)}
+		c, err := builders.ChallengeWithRandomizers(ctx, nonce, rnd, issig)
+		if err != nil {
+			return "failed: " + err.Error()
+		}
+		pp := gabi.KeyshareResponseLegacy(kssSecret, kssRand, c, pk)
+		before := showInt(pp.SResponse) + showInt(pp.C) + showInt(pp.P)
+		pps := make([]*gabi.ProofP, n)
+		for i := range pps {
+			pps[i] = pp
+		}
+		pl, err := builders.BuildDistributedProofList(c, pps)
+		if err != nil {
+			return "failed: " + err.Error()
+		}
+		if !pl.Verify(keys, ctx, nonce, issig, kss) {
+			return "failed: the joint list does not verify"
+		}
+		if showInt(pp.SResponse)+showInt(pp.C)+showInt(pp.P) != before {
+			return "failed: the server's answer was changed by merging it"
+		}
+		return "verified"
+	}()
+	return Op{"op": "recorded", "class": fmt.Sprintf("legacy-keyshare-%d-disclosures", n), "label": "verified", "nomodel": true,
+		"fkey": "legacy-keyshare-disclosures", "result": res, "key": kp.id, "issig": issig}
 }
